@@ -115,9 +115,12 @@ FOps == << [name |-> "read_card", pre |-> <<>>, frames |-> <<1>>, tid |-> "52523
            [name |-> "cancel", pre |-> <<"begin">>, frames |-> <<1, 1, 1>>, tid |-> "52523535"],
            [name |-> "configure", pre |-> <<>>, frames |-> <<1, 1, 1, 1, 1>>, tid |-> "11112222"] >>
 OkPlan == [o |-> "ok", status |-> [amount |-> <<1>>], uid |-> <<1, 2, 3, 4>>]
-FaultKinds == IF Mode = "C10" THEN {"silence", "partial"} ELSE {"close", "garbage", "malformed", "partial", "partial_close", "nack", "silence"}
+\* write_error: a write of the client fails once - of the command (position 0) or of its acknowledgement of reply p (position p)
+FaultKinds == IF Mode = "C10" THEN {"silence", "partial"} ELSE {"close", "garbage", "malformed", "partial", "partial_close", "nack", "silence", "write_error"}
 \* faults in the handshake of a fresh connection
-HsFaults == (IF Mode = "C10" THEN {} ELSE {[connect |-> "refused"], [sysinfo |-> [serial |-> "DEADBEEF"]]})
+HsFaults == (IF Mode = "C10" THEN {} ELSE {[connect |-> "refused"], [sysinfo |-> [serial |-> "DEADBEEF"]],
+                                           [sysinfo |-> [serial |-> "17FD1E3D"]], [sysinfo |-> [serial |-> "27FD1E3C"]],
+                                           [sysinfo |-> [serial |-> "17FD1E3"]], [sysinfo |-> [serial |-> "7FD1E3C"]]})
             \cup {[connect |-> "stall"]}
             \cup {[registration |-> [fault |-> [pos |-> p, kind |-> k]]] : p \in 0..1, k \in FaultKinds}
             \cup {[sysinfo |-> [fault |-> [pos |-> p, kind |-> k]]] : p \in 0..1, k \in FaultKinds}
